@@ -1,7 +1,7 @@
 """C04 - typed arguments and sized data accept exactly their range, never truncating.
 
 Exhaustive enumeration monitor: every width N in 0..16 (both tiers complete; quick samples the deep rejected #d values, thorough enumerates them)
-and every value v in [-2^N-4, 2^N+4], for uN / sN / iN parameters and #dN directives, in eight
+and every value v in [-2^N-4, 2^N+4], for uN / sN / iN parameters and #dN directives, in nine
 spellings. Acceptance is observed through a larger untyped fallback rule (the marker bit and the
 encoding size reveal which rule was taken), rejection itself (error, no output) is observed alone
 for every value within 4 of a boundary and a seeded sample of the others.
@@ -12,7 +12,7 @@ SPEC = {
     "level": "exploration",
     "technique": "exhaustive enumeration of (kind, width, value, spelling) with an arithmetic range predicate as oracle; accept/reject observed through marker bits of a cascading fallback rule and through single-instruction runs; directed families for values that settle after a larger first-pass guess and for values given by command-line defines (real binary)",
     "level_text": ("Exhaustive enumeration of a finite space: all (kind in u/s/i/#d, N, v) with N <= 16 (both tiers; quick samples deep-rejected #d cells alone, thorough runs all of them alone) "
-                   "(thorough), v in [-2^N-4, 2^N+4], each in eight spellings; the oracle is the arithmetic range predicate of "
+                   "(thorough), v in [-2^N-4, 2^N+4], each in nine spellings; the oracle is the arithmetic range predicate of "
                    "the property and the emitted bits must be v mod 2^N. Widths up to 256 are sampled around each boundary."),
     "level_note": ("Complete for the stated grid (exhaustive: true); trusts only Python integer arithmetic and the bit-stream "
                    "decoder of the marker scheme. Known finding: N = 0 rejects v = 0 (exact case keys)."),
@@ -28,7 +28,7 @@ SPEC = {
     "assumptions": ["the fallback rule `t {x} => 0b0 @ x`(N+9)` is only taken when the typed rule's constraint fails (smallest encoding wins)"],
 }
 
-SPELLINGS = ["dec", "hex", "bin", "neg", "expr", "const", "not", "sizedarith"]
+SPELLINGS = ["dec", "hex", "bin", "oct", "neg", "expr", "const", "not", "sizedarith"]
 
 
 def accepts(kind, n, v):
@@ -59,6 +59,9 @@ def spell(v, how, consts):
     if how == "bin":
         b = bin(a)[2:]
         return ("0b" + b if v >= 0 else "-0b" + b), (len(b) if v >= 0 else None)
+    if how == "oct":
+        o = "%o" % a
+        return ("0o" + o if v >= 0 else "-0o" + o), (3 * len(o) if v >= 0 else None)
     if how == "neg":
         return ("-(%d)" % -v if v != 0 else "-0"), None
     if how == "expr":
